@@ -510,8 +510,6 @@ def waived(p):
         w["complete"] = "F13"       # a failing try_* is only seen if the holder is preempted inside its critical section
     if "tryrecv" in ops:
         w["complete"] = "F9"        # try_recv on an empty channel is no branch point
-    if ops & {"acount", "agetmut", "aunwrap"}:
-        w["complete"] = "F14"
     if "yield" in ops:
         w["complete"] = "yield"     # yield_now deprioritises the thread: which schedules are explored is C18's subject, not claimed here       # Arc inspections: single last-access slot per class
     return w
